@@ -5,6 +5,7 @@ package server
 // real PublicKeyCallback (files in ./cache/<user>.authorized_keys) to show that a grant never influences a later one.
 
 import (
+	"sync"
 	"time"
 	"crypto/ecdsa"
 	"crypto/ed25519"
@@ -222,4 +223,58 @@ func TestC09Keys(t *testing.T) {
 		}
 	}
 	vWriteJSON(t, "VERIF_OUT", map[string]interface{}{"evaluations": evals + hevals, "bad": bads, "history_bad": hbads})
+}
+
+// Logins that overlap in time: several users authenticate at once, each against a large authorized-keys file of their
+// own.  Every decision must be the one of the user's own file, whatever the others are doing.
+func TestC09Concurrent(t *testing.T) {
+	vInit("none")
+	rng := mrand.New(mrand.NewSource(vSeed()))
+	keys := c09Keys(t, rng)
+	dir, _ := os.MkdirTemp("", "c09c-")
+	defer os.RemoveAll(dir)
+	cwd, _ := os.Getwd()
+	os.Chdir(dir)
+	defer os.Chdir(cwd)
+	os.MkdirAll(filepath.Join(dir, "cache"), 0755)
+	users := []string{"alice", "bob", "carol"}
+	own := map[string]string{"alice": "A", "bob": "B", "carol": "C"}
+	for _, u := range users {
+		var sb strings.Builder
+		for i := 0; i < 600; i++ {
+			fmt.Fprintf(&sb, "# key list of %s, comment line %d, padding padding padding padding padding padding\n", u, i)
+		}
+		sb.Write(gossh.MarshalAuthorizedKey(keys[own[u]]))
+		for i := 0; i < 50; i++ {
+			fmt.Fprintf(&sb, "# trailing comment %d\n", i)
+		}
+		os.WriteFile(filepath.Join("cache", u+".authorized_keys"), []byte(sb.String()), 0644)
+	}
+	rounds := 150
+	fmt.Sscanf(os.Getenv("VERIF_N"), "%d", &rounds)
+	var mu sync.Mutex
+	var bads []string
+	evals := 0
+	var wg sync.WaitGroup
+	for g := 0; g < 9; g++ {
+		wg.Add(1)
+		go func(g int) {
+			defer wg.Done()
+			r := mrand.New(mrand.NewSource(int64(g) + vSeed()))
+			for i := 0; i < rounds; i++ {
+				u := users[r.Intn(3)]
+				k := []string{"A", "B", "C"}[r.Intn(3)]
+				perm, err := PublicKeyCallback(c09Meta{u, fmt.Sprintf("127.0.0.1:%d", 5000+g)}, keys[k])
+				granted := err == nil && perm != nil
+				mu.Lock()
+				evals++
+				if granted != (own[u] == k) && len(bads) < 20 {
+					bads = append(bads, fmt.Sprintf("user %s offered key %s while other logins were in progress: granted=%v, the user's file lists key %s only", u, k, granted, own[u]))
+				}
+				mu.Unlock()
+			}
+		}(g)
+	}
+	wg.Wait()
+	vWriteJSON(t, "VERIF_OUT", map[string]interface{}{"evaluations": evals, "bad": bads})
 }
